@@ -68,6 +68,7 @@ EXPECT = {
     'AUX1': [('FixtureLint::Rect', 'chi1 as phi')],
     'CP2': [('FixtureLint::AltSum', '_a/_alt_a')],
     'SWP1': [('FixtureLint::Order', 'sphi1,sphi2')],
+    'SC1': [('FixtureLint::Radius', 'calp,salp')],
     'CP1': [('FixtureLint::Pad', 'easting/northing')],
     'X7r': [('FixtureShared::HalfFilled', 'alpha_')],
     'K7': [('FixtureRaster::probe', 'B1 filepos column')],
@@ -166,6 +167,9 @@ def run_controls(rules):
         elif r == 'SWP1':
             from .rules import lint
             res = lint.rule_SWP1(fx, None)[0]
+        elif r == 'SC1':
+            from .rules import lint
+            res = lint.rule_SC1(fx, None)[0]
         elif r == 'CP1':
             from .rules import lint
             res = lint.rule_CP1(fx, None)[0]
